@@ -107,8 +107,14 @@ def _run_scripted(rng, idx):
     eps = rng.choice([1e-8, 1e-8, 1e-6, 1e-3])
     gamma = rng.uniform(0.5, 2.0) if rng.random() < 0.9 else rng.uniform(0.2, 0.5)
     hostile = rng.random() < 0.4
-    hadm, prof = _profile(rng, T, hostile)
+    hadm0, prof = _profile(rng, T, hostile)
     dt0 = 2.0 ** rng.randint(-10, 2)
+    # time offset: comparisons that are (by mistake) relative to |t| behave differently far from zero (seed C06-s3:
+    # a hidden rtol=1e-5 in the "did the step end at the checkpoint" test is invisible for t ~ 1)
+    off = rng.choice([0.0, 0.0, 0.0, 37.0, 1000.0])
+
+    def hadm(t):
+        return hadm0(t - off)
 
     def run(save_at):
         log = record.Log()
@@ -124,18 +130,18 @@ def _run_scripted(rng, idx):
         return log, sol
 
     # pass 1: natural step ends
-    log1, sol1 = run([0.0, T])
+    log1, sol1 = run([off, off + T])
     desc0 = {"hist": idx, "T": T, "controller": ckind, "params": params, "clip": clip, "eps": eps, "gamma": gamma,
-             "hostile": hostile, "profile": prof, "dt0": dt0}
+             "hostile": hostile, "profile": prof, "dt0": dt0, "offset": off}
     if sol1 is None:
-        return _budget_verdict(log1, {**desc0, "save_at": [0.0, T], "layout": []})
+        return _budget_verdict(log1, {**desc0, "save_at": [off, off + T], "layout": []})
     ends = sorted({e["new_t"] for i, e in enumerate(log1.events) if e["ev"] == "step"
-                   and log1.events[i + 1]["ev"] == "error" and log1.events[i + 1]["ep"] >= 1.0 and e["new_t"] < T})
-    pts, kinds = {0.0, T}, set()
+                   and log1.events[i + 1]["ev"] == "error" and log1.events[i + 1]["ep"] >= 1.0 and e["new_t"] < off + T})
+    pts, kinds = {off, off + T}, set()
     for _ in range(rng.randint(0, 6)):
-        kind = rng.choice(["at", "near", "after", "inside", "random", "pair"]) if ends else "random"
+        kind = rng.choice(["at", "near", "after", "just_before", "inside", "random", "pair"]) if ends else "random"
         if kind == "random":
-            pts.add(rng.uniform(0, T))
+            pts.add(off + rng.uniform(0, T))
         else:
             e0 = rng.choice(ends)
             if kind == "at":
@@ -144,17 +150,20 @@ def _run_scripted(rng, idx):
                 pts.add(e0 + rng.choice([-1, 1]) * eps * rng.uniform(0.1, 0.9))
             elif kind == "after":
                 pts.add(e0 + 2 * eps)
+            elif kind == "just_before":
+                # the step overshoots the checkpoint by a little more than eps: it must be interpolated back, not "reached"
+                pts.add(e0 - rng.choice([1.5 * eps, 3 * eps, 30 * eps, eps + 3e-6 * max(1.0, abs(e0)), eps + 1e-7 * max(1.0, abs(e0))]))
             elif kind == "inside":
                 j = ends.index(e0)
-                lo = ends[j - 1] if j > 0 else 0.0
+                lo = ends[j - 1] if j > 0 else off
                 for _ in range(3):
                     pts.add(rng.uniform(lo, e0))
             else:
-                x = rng.uniform(0, T)
+                x = off + rng.uniform(0, T)
                 pts.add(x)
                 pts.add(x + eps * rng.uniform(0.1, 0.9))
         kinds.add(kind)
-    save_at = sorted(p for p in pts if 0.0 <= p <= T)
+    save_at = sorted(p for p in pts if off <= p <= off + T)
     log, sol = run(save_at)
     if sol is None:
         return _budget_verdict(log, {**desc0, "save_at": save_at, "layout": sorted(kinds)})
@@ -163,7 +172,7 @@ def _run_scripted(rng, idx):
         result_t=[float(x) for x in np.asarray(sol.t)], result_steps=[int(x) for x in np.asarray(sol.num_steps)],
     )
     desc = {"hist": idx, "T": T, "controller": ckind, "params": params, "clip": clip, "eps": eps, "gamma": gamma,
-            "hostile": hostile, "profile": prof, "dt0": dt0, "save_at": save_at, "layout": sorted(kinds)}
+            "hostile": hostile, "profile": prof, "dt0": dt0, "save_at": save_at, "layout": sorted(kinds), "offset": off}
     return V, C, desc, log
 
 
